@@ -1077,5 +1077,5 @@ Proof.
   split; [split; [discriminate|apply Forall_chars_range; reflexivity]|].
   split; [split; [discriminate|apply Forall_chars_range; reflexivity]|].
   split; [|vm_compute; reflexivity].
-  split; [apply ascii_text_chk; reflexivity|]. split; [vm_compute; intuition discriminate|vm_compute; lia].
+  split; [apply ascii_text_chk; reflexivity|]. split; [vm_compute; intuition discriminate|vm_compute; left; reflexivity].
 Qed.
